@@ -354,6 +354,21 @@ func makeSentinels(sandbox string, cat *Catalogue) error {
 func copyPre(kind, dst string) error {
 	src := ""
 	switch kind {
+	case "leftovers":
+		// what earlier read-write runs and other tools leave behind: a valid but empty layout with an empty blob
+		// directory and an empty _uploads folder, next to it a valid empty layout and a directory that is no layout
+		root := filepath.Dir(filepath.Dir(dst)) // dst is root/pre/existing
+		empty := `{"schemaVersion":2,"mediaType":"application/vnd.oci.image.index.v1+json","manifests":[],"annotations":{"org.olareg.referrer.convert":"true"}}`
+		for _, d := range []string{dst, filepath.Join(root, "other")} {
+			if err := os.MkdirAll(d, 0o755); err != nil {
+				return err
+			}
+			_ = os.WriteFile(filepath.Join(d, "oci-layout"), []byte(`{"imageLayoutVersion":"1.0.0"}`), 0o644)
+			_ = os.WriteFile(filepath.Join(d, "index.json"), []byte(empty), 0o644)
+		}
+		_ = os.MkdirAll(filepath.Join(dst, "blobs", "sha256"), 0o755)
+		_ = os.MkdirAll(filepath.Join(dst, "_uploads"), 0o755)
+		return os.MkdirAll(filepath.Join(root, "emptydir"), 0o755)
 	case "testrepo":
 		src = filepath.Join(repoDir, "testdata", "testrepo")
 	case "corrupt":
